@@ -646,7 +646,7 @@ func c08BigSub(kind, size int) gtab.Subtable {
 
 // c08Scaled builds the k-th subtable kind with n entries (for the sweep across the 64 KiB limit of the
 // 16-bit offsets inside one subtable).
-var c08ScaledKinds = []string{"GSUB1.2", "GSUB2.1", "GSUB3.1", "GSUB4.1 (two ligature sets)", "GSUB4.1 (one ligature per set)", "context format 1", "chained context format 1", "GPOS1.2", "GPOS2.1", "GPOS2.2", "GPOS4.1", "context format 2", "chained context format 2", "context format 3", "chained context format 3", "GSUB8.1", "GPOS3.1", "GPOS6.1"}
+var c08ScaledKinds = []string{"GSUB1.2", "GSUB2.1", "GSUB3.1", "GSUB4.1 (two ligature sets)", "GSUB4.1 (one ligature per set)", "context format 1", "chained context format 1", "GPOS1.2", "GPOS2.1", "GPOS2.2", "GPOS4.1", "context format 2", "chained context format 2", "context format 3", "chained context format 3", "GSUB8.1", "GPOS3.1", "GPOS6.1", "context format 2 (large class table)", "chained context format 2 (large class tables)", "GPOS2.2 (large class tables)", "GSUB1.1", "GPOS1.1"}
 
 func c08Scaled(k, n int) (gtab.Subtable, uint16, bool) {
 	g := func(i int) glyph.ID { return glyph.ID(1 + i) }
@@ -779,6 +779,43 @@ func c08Scaled(k, n int) (gtab.Subtable, uint16, bool) {
 			}
 			return st, 8, false
 		}
+	case 18, 19, 20:
+		// class definition tables of n alternating classes (6 + 2n bytes in format 1)
+		alt := func(n, salt int) classdef.Table {
+			t := classdef.Table{}
+			for i := 0; i < n; i++ {
+				t[g(i)] = uint16(1 + (i+salt)%2)
+			}
+			return t
+		}
+		switch k {
+		case 18:
+			st := &gtab.SeqContext2{Cov: covN(2), Input: alt(n, 0), Rules: make([][]*gtab.ClassSeqRule, 3)}
+			for cls := 1; cls <= 2; cls++ {
+				st.Rules[cls] = []*gtab.ClassSeqRule{{Input: []uint16{uint16(cls), 1}, Actions: []gtab.SeqLookup{{SequenceIndex: 1, LookupListIndex: 0}}}}
+			}
+			return st, 5, false
+		case 19:
+			st := &gtab.ChainedSeqContext2{Cov: covN(2), Backtrack: alt(n/3, 0), Input: alt(n-n/3-n/3, 1), Lookahead: alt(n/3, 0), Rules: make([][]*gtab.ChainedClassSeqRule, 3)}
+			for cls := 1; cls <= 2; cls++ {
+				st.Rules[cls] = []*gtab.ChainedClassSeqRule{{Backtrack: []uint16{1}, Input: []uint16{uint16(cls)}, Lookahead: []uint16{2}, Actions: []gtab.SeqLookup{{SequenceIndex: 0, LookupListIndex: 0}}}}
+			}
+			return st, 6, false
+		default:
+			st := &gtab.Gpos2_2{Cov: coverage.Set{g(0): true, g(1): true}, Class1: alt(n/2, 0), Class2: alt(n-n/2, 1)}
+			for i := 0; i < 3; i++ {
+				row := make([]*gtab.PairAdjust, 3)
+				for j := range row {
+					row[j] = &gtab.PairAdjust{First: &gtab.GposValueRecord{XAdvance: funit.Int16(10*i + j + 1)}}
+				}
+				st.Adjust = append(st.Adjust, row)
+			}
+			return st, 2, true
+		}
+	case 21:
+		return &gtab.Gsub1_1{Cov: covN(n).ToSet(), Delta: 1}, 1, false
+	case 22:
+		return &gtab.Gpos1_1{Cov: covN(n), Adjust: &gtab.GposValueRecord{XAdvance: 7}}, 1, true
 	case 16:
 		st := &gtab.Gpos3_1{Cov: covN(n)}
 		for i := 0; i < n; i++ {
